@@ -57,6 +57,9 @@ type prodLedger struct {
 	key      *statekit.Key
 	coins    *coins
 	released bool // the protocol released the lock (cancel + lockup, forced cancel)
+	// rereleased: an automatic cancel hit a producer whose lock had already been
+	// released by an earlier cancel (it was made Illegal in between)
+	rereleased bool
 	// aliased: this producer's owner key is (or was) the node key of another
 	// producer, or its node key another producer's owner key
 	aliased bool
@@ -328,6 +331,14 @@ func (m *model) apply(h uint32, txs []blockTx) []finding {
 			case payload.RenewalVoteVersion:
 				for _, c := range pl.RenewalContents {
 					old := s.votes[c.ReferKey]
+					if old == nil && renewed[c.ReferKey] {
+						// the vote was renewed by an earlier transaction of this
+						// block: the node books both renewals (the vote exists twice
+						// afterwards, its expiry is subtracted twice)
+						out = append(out, finding{subject: s, sig: "C28:stake:overdrawn-by-several-txs-of-the-address-in-one-block",
+							detail: fmt.Sprintf("height %d: %s renews vote %s a second time in one block", h, bt.desc, c.ReferKey)})
+						continue
+					}
 					if old == nil {
 						out = append(out, finding{subject: s, sig: "C28:model:renewal-of-unknown-vote",
 							detail: fmt.Sprintf("height %d: renewal %s names vote %s the model does not hold", h, bt.desc, c.ReferKey)})
@@ -440,11 +451,15 @@ func (m *model) observeRoles(h uint32) {
 		}
 		// forced releases, judged on the role before this block
 		if pre.exists && pre.state != dstate.Returned && pre.state != dstate.Canceled {
-			if h == active && pre.identity == dstate.DPoSV1 {
-				l.released = true
-			}
+			forced := h == active && pre.identity == dstate.DPoSV1
 			if pre.stakeUntil != 0 && pre.stakeUntil < h &&
 				(pre.identity == dstate.DPoSV2 || (pre.identity == dstate.DPoSV1V2 && h > active)) {
+				forced = true
+			}
+			if forced {
+				if l.released {
+					l.rereleased = true
+				}
 				l.released = true
 			}
 		}
@@ -585,7 +600,21 @@ func (m *model) compare(h uint32, dupStake map[common.Uint168]int) []finding {
 			add("C28:producer:TotalAmount-negative", "%s: TotalAmount %s", who, p.TotalAmount())
 		}
 		if p.DepositAmount() < 0 {
-			add("C28:producer:DepositAmount-negative", "%s: DepositAmount %s", who, p.DepositAmount())
+			// a CancelProducer transaction in the very block that cancels the
+			// producer automatically (DPoS 2.0 becomes active / its stake ran out)
+			cause := ""
+			ch := p.CancelHeight()
+			until, active := p.Info().StakeUntil, st.DPoSV2ActiveHeight
+			auto := ch == active // 1.0: forced cancel; 1.0&2.0: lock reduced to the 2.0 minimum
+			if until != 0 && (ch == until+1 || (until < active+1 && ch == active+1)) {
+				auto = true // the stake ran out (a 1.0&2.0 producer is only cancelled once DPoS 2.0 is active)
+			}
+			if ch != 0 && auto {
+				cause = ":cancel-tx-in-the-block-of-the-automatic-cancel"
+			} else if l.rereleased {
+				cause = ":automatic-cancel-of-a-producer-canceled-before"
+			}
+			add("C28:producer:DepositAmount-negative"+cause, "%s: DepositAmount %s", who, p.DepositAmount())
 		} else if p.DepositAmount() < l.required {
 			rel := ""
 			if l.released {
